@@ -1,6 +1,7 @@
 /- The RTSP wire codec of the current source tree: `Model/RtspWire.lean` instantiated with
    the regenerated facts of `Gen/RtspWireFacts.lean` (C14). -/
 import IpcHub.Model.RtspWire
+import IpcHub.Model.WsTransport
 import IpcHub.Gen.RtspWireFacts
 namespace IpcHub.RtspWire
 
@@ -20,5 +21,9 @@ def genMaxBody : Nat := genCfg.maxBody.getD 0
 def genStatusTable : List (Nat × List UInt8) := IpcHub.Gen.statusTable.map (fun p => (p.1, ascii p.2))
 
 def genMethods : List (List UInt8) := IpcHub.Gen.methodConstants.map ascii
+
+/-- the WebSocket transport of the current tree (network/websocket/websocket.go `Read`), through
+    which an RTSP-over-WebSocket session reads -/
+def genWsCfg : IpcHub.WsTransport.Cfg := { dropOnlyAtEOF := IpcHub.Gen.wsReaderDroppedOnlyAtEOF }
 
 end IpcHub.RtspWire
